@@ -264,6 +264,15 @@ func forcedCases() []histCase {
 		opFetch(111, 120, logSpec{Eon: 1, Id: 22, Blk: 111, Val: "0102030405"}),
 		opBlock(120, 1001),
 	})
+	// several keyper sets with fired / due identities in ONE block, a non-decryptable set below
+	// and above a decryptable one, for every way of being non-decryptable
+	for _, st := range []string{"not-member", "running", "failed", "restarted", "restarted-after-success"} {
+		add("multi-set-"+st+"-below-success", true, true, multiSetOps([]int64{1, 2}, []string{st, "success"}, 0))
+		add("multi-set-success-below-"+st, true, true, multiSetOps([]int64{1, 2}, []string{"success", st}, 0))
+	}
+	add("multi-set-failed-success-not-member", true, true, multiSetOps([]int64{1, 2, 3}, []string{"failed", "success", "not-member"}, 1))
+	add("multi-set-running-not-member-success", true, true, multiSetOps([]int64{1, 2, 3}, []string{"running", "not-member", "success"}, 2))
+	add("multi-set-success-failed-success", true, true, multiSetOps([]int64{3, 1, 2}, []string{"success", "failed", "success"}, 3))
 	// two keyper sets with one activation block: the handler selects the eon by block number
 	add("equal-activation-other-set-expired", true, true,
 		[]opSpec{opConfig(1, 100, 0, 1), opEon(1, 10, 100, 1), opDkg(1, true, true), opConfig(2, 100, 0, 2), opEon(2, 11, 100, 2), opDkg(2, true, true),
@@ -275,6 +284,102 @@ func forcedCases() []histCase {
 		}
 	}
 	return cs
+}
+
+// ---------------------------------------------------------------------------------------
+// several keyper sets in one block
+
+// multiSetOps: keyper set sets[i] is put into state states[i] (not-member | running | failed |
+// restarted | restarted-after-success | success); every set gets two fired event triggers and
+// two due time registrations; then one block is processed (number above every activation
+// block, time above every release time), the volatile state is dropped and a second block
+// follows. variant shifts identities and chooses raw fire / trigger processor.
+func multiSetOps(sets []int64, states []string, variant int) []opSpec {
+	var ops []opSpec
+	eon := int64(1)
+	height := int64(10)
+	key := 1
+	var logs []logSpec
+	for i, set := range sets {
+		act := 100 + set // distinct activation blocks
+		keypers := []int{1, 0, 2}
+		if states[i] == "not-member" {
+			keypers = []int{1, 2, 3}
+		}
+		ops = append(ops, opConfig(int32(set), act, keypers...))
+		start := func() {
+			height++
+			ops = append(ops, opEon(eon, height, act, set))
+			eon++
+		}
+		switch states[i] {
+		case "not-member", "success":
+			start()
+			ops = append(ops, opDkg(eon-1, true, true))
+		case "running":
+			start()
+		case "failed":
+			start()
+			ops = append(ops, opDkg(eon-1, false, false))
+		case "restarted":
+			start()
+			ops = append(ops, opDkg(eon-1, false, false))
+			start()
+		case "restarted-after-success":
+			start()
+			ops = append(ops, opDkg(eon-1, true, true))
+			start()
+		default:
+			panic("bad state " + states[i])
+		}
+		for j := 0; j < 2; j++ {
+			evID := 40 + (int(set)*2+j+variant)%8
+			ops = append(ops, opRegEvent(set, evID, 500, 90))
+			if (variant+j)%2 == 0 {
+				ops = append(ops, opFire(set, evID, 120))
+			} else {
+				logs = append(logs, logSpec{Eon: set, Id: evID, Blk: uint64(121 + j)})
+			}
+			ops = append(ops, opRegTime(key, set, 10+key, 990+int64(j), 90))
+			key++
+		}
+	}
+	if len(logs) > 0 {
+		ops = append(ops, opFetch(120, 130, logs...))
+	}
+	ops = append(ops, opBlock(130, 1000), opRestart(), opBlock(131, 1001))
+	return ops
+}
+
+var setStates = []string{"not-member", "running", "failed", "restarted", "restarted-after-success", "success", "success"}
+
+// genMultiSetHist: 2 to 4 keyper sets with independent states and indices in random order.
+func genMultiSetHist(r *vh.RNG, i int) histCase {
+	n := 2 + r.Intn(3)
+	idx := r.Perm(4)
+	var sets []int64
+	var states []string
+	for k := 0; k < n; k++ {
+		sets = append(sets, int64(idx[k]+1))
+		states = append(states, setStates[r.Intn(len(setStates))])
+	}
+	if r.Chance(3, 4) { // usually at least one decryptable set
+		states[r.Intn(n)] = "success"
+	}
+	c := histCase{Name: fmt.Sprintf("random-multi-set-%d", i), Events: r.Chance(7, 8), MaxKeys: 8, Auto: true}
+	if r.Chance(1, 2) {
+		c.OrderSeed = r.U64() | 1
+	}
+	c.Ops = multiSetOps(sets, states, r.Intn(8))
+	// sometimes a running set gets its result, or a set's identities are released, and one more block
+	switch r.Intn(3) {
+	case 0:
+		c.Ops = append(c.Ops, opDkg(int64(1+r.Intn(n+1)), r.Chance(2, 3), true), opRestart(), opBlock(132, 1002))
+	case 1:
+		set := sets[r.Intn(n)]
+		c.Ops = append(c.Ops, opReleased(set, 40+(int(set)*2)%8, 11), opRestart(), opBlock(132, 1002))
+	}
+	return c
 }
 
 // ---------------------------------------------------------------------------------------
